@@ -279,6 +279,13 @@ func records() {
 		d2, m2 := rec2[:k], rec2[k:k+len(in[1])]
 		emit(300+i, call(in[0], m2, d2))
 		emit(400+i, call(in[0], m2, d2))
+
+		// one tag buffer, edited in place between two calls (same address, same length, last byte flipped)
+		tag := []byte(in[2])
+		call(in[0], []byte(in[1]), []byte("an unrelated tag used in between"))
+		call(in[0], []byte(in[1]), tag)
+		tag[len(tag)-1] ^= 1
+		emit(500+i, call(in[0], []byte(in[1]), tag))
 	}
 }
 
@@ -532,6 +539,37 @@ func c17Parent(p *mon.Prop, pc *mon.ParentCtx) *mon.Aggregate {
 		return fmt.Sprintf("%016x", h)
 	}()
 
+	// expected values for the "tag edited in place" calls (last byte of the tag flipped)
+	expectedEdited := make([]string, len(inputs))
+
+	for i, in := range inputs {
+		msg := in.Msg
+		if len(msg) > 1 && msg[0] == '@' {
+			n, _ := strconv.Atoi(msg[1:])
+			b := make([]byte, n)
+
+			for k := range b {
+				b[k] = byte(k*13 + 7)
+			}
+
+			msg = string(b)
+		}
+
+		tag := []byte(in.Dst)
+		tag[len(tag)-1] ^= 1
+
+		switch in.Fn {
+		case "H2G":
+			pt, _ := oracle.HashToCurve([]byte(msg), tag)
+			expectedEdited[i] = mon.H(oracle.EncC(pt))
+		case "E2G":
+			pt, _ := oracle.EncodeToCurve([]byte(msg), tag)
+			expectedEdited[i] = mon.H(oracle.EncC(pt))
+		default:
+			expectedEdited[i] = mon.H(oracle.Bytes32(oracle.HashToScalar([]byte(msg), tag)))
+		}
+	}
+
 	root := filepath.Join(pc.Scratch, "c17")
 
 	var variants []c17Variant
@@ -737,6 +775,22 @@ func c17Parent(p *mon.Prop, pc *mon.ParentCtx) *mon.Aggregate {
 				Key:      "program-wrong-sweep:" + v.Name,
 				Case:     map[string]any{"variant": v.Name},
 			})
+		}
+
+		for i := range inputs {
+			agg.Evaluations++
+
+			if got[500+i] != expectedEdited[i] && bad == 0 {
+				bad++
+				agg.ViolCount++
+				agg.Violations = append(agg.Violations, mon.Violation{
+					Property: p.ID,
+					What: fmt.Sprintf("program %q (execution %d): %s called twice on one tag buffer whose last byte was flipped in between printed %s for the second call, RFC 9380 value for the edited tag is %s", v.Name, r.run, inputs[i].Fn,
+						mon.Trunc(got[500+i], 80), expectedEdited[i]),
+					Key:  "program-wrong-value-edited-tag:" + v.Name,
+					Case: map[string]any{"variant": v.Name, "input": inputs[i]},
+				})
+			}
 		}
 
 		for i := range inputs {
